@@ -267,6 +267,36 @@ def instRet (aargs : AList) : AVal → AVal
   | .param i => AList.get aargs i
   | a => a
 
+/-- Abstract value of `y.sel`. -/
+def aload (s : AState) (y : Var) (sel : Sel) : AVal :=
+  match AList.get s.env y, sel with
+  | .closed, _ => .closed
+  | .param 0, .field f => AList.get s.fld f
+  | _, _ => .any
+
+/-- Abstract store `x.sel := y`. -/
+def astore (me : Summary) (x : Var) (sel : Sel) (y : Var) (s : AState) : Option AState :=
+  let ax := AList.get s.env x
+  let ay := AList.get s.env y
+  if writable me ax then
+    if ay.storable then some (s.storeFld ax sel ay)
+    else if me.keeps then none
+    else some (s.degrade.storeFld ax sel ay)
+  else none
+
+/-- Abstract call `x := g(ys)` of a function with summary `cs`. -/
+def acall (me cs : Summary) (x : Var) (ys : List Var) (s : AState) : Option AState :=
+  let aargs : AList := ys.map (AList.get s.env)
+  if cs.writes.all (fun i => decide (i < ys.length) && writable me (AList.get aargs i)) then
+    let s1 := if cs.writes.any (fun i => (AList.get aargs i).isParam) then s.forget else s
+    if cs.writes.isEmpty || cs.keeps then
+      some (s1.setVar x (instRet aargs cs.ret))
+    else if me.keeps then none
+    else
+      let s2 := s1.degrade
+      some (s2.setVar x (instRet (ys.map (AList.get s2.env)) cs.ret))
+  else none
+
 /-- Abstract execution.  `none` = the function is rejected. -/
 def aexec (sums : List Summary) (me : Summary) : Stmt → AState → Option AState
   | .skip, s => some s
@@ -278,34 +308,12 @@ def aexec (sums : List Summary) (me : Summary) : Stmt → AState → Option ASta
   | .alias x y, s => some (s.setVar x (AList.get s.env y))
   | .global x _, s => some (s.setVar x .any)
   | .new x, s => some (s.setVar x .closed)
-  | .load x y sel, s =>
-    let r := match AList.get s.env y, sel with
-      | .closed, _ => AVal.closed
-      | .param 0, .field f => AList.get s.fld f
-      | _, _ => AVal.any
-    some (s.setVar x r)
-  | .store x sel y, s =>
-    let ax := AList.get s.env x
-    let ay := AList.get s.env y
-    if writable me ax then
-      if ay.storable then some (s.storeFld ax sel ay)
-      else if me.keeps then none
-      else some (s.degrade.storeFld ax sel ay)
-    else none
+  | .load x y sel, s => some (s.setVar x (aload s y sel))
+  | .store x sel y, s => astore me x sel y s
   | .call x g ys, s =>
     match sums[g]? with
     | none => none
-    | some cs =>
-      let aargs : AList := ys.map (AList.get s.env)
-      if cs.writes.all (fun i => i < ys.length && writable me (AList.get aargs i)) then
-        let s1 := if cs.writes.any (fun i => (AList.get aargs i).isParam) then s.forget else s
-        if cs.writes.isEmpty || cs.keeps then
-          some (s1.setVar x (instRet aargs cs.ret))
-        else if me.keeps then none
-        else
-          let s2 := s1.degrade
-          some (s2.setVar x (instRet (ys.map (AList.get s2.env)) cs.ret))
-      else none
+    | some cs => acall me cs x ys s
   | .ite a b, s =>
     match aexec sums me a s, aexec sums me b s with
     | some s1, some s2 => some (s1.join s2)
